@@ -65,6 +65,8 @@ type CheckSpec struct {
 	// object as constructed, never sealed and decoded), dlg-built (the loader hands out the
 	// delegation objects as constructed for everything the store holds), all-built
 	Prov string `json:"prov,omitempty"`
+	// HookSleepNS: the hook takes this long (simulated time): bounds that pass while it runs count
+	HookSleepNS int64 `json:"hook_sleep_ns,omitempty"`
 }
 
 type ProbeSpec struct {
@@ -996,6 +998,9 @@ func hookFor(c *CheckSpec, failed *bool) func(args.ReadOnly) (*args.Args, error)
 		// a hook that takes its time (a lookup, I/O): whatever the library started before calling it
 		// runs until it is done or waits for something (no simulated time passes)
 		synctest.Wait()
+		if c.HookSleepNS > 0 {
+			time.Sleep(time.Duration(c.HookSleepNS))
+		}
 		switch c.Hook {
 		case "nil":
 			return nil, nil
